@@ -862,3 +862,6 @@ def run_group_default(r, obs, ctl):
     gb.reset()
     if list(gb.compute()) != []:
         ctl.fail("groupby-reset-keeps-groups", "GroupBy.reset() left %r" % (gb.groups,))
+
+
+RULE += (' group_by / merge keys are listed in enumerated, reversed and shuffled order; raising leaves also raise LenaStopFill, LenaKeyError and RuntimeError.')
